@@ -2741,6 +2741,9 @@ func doCompositeBinStruct(n *node, hasType bool) {
 		switch {
 		case d.Kind() == reflect.Ptr:
 			d.Set(s.Addr())
+		case n.anc.kind == assignStmt:
+			// Write to the existing variable, which may be referenced by a pointer or a closure.
+			d.Set(s)
 		default:
 			getFrame(f, l).data[frameIndex] = s
 		}
@@ -2816,6 +2819,9 @@ func doComposite(n *node, hasType bool, keyed bool) {
 				d.Set(reflect.ValueOf(valueInterface{n, a}))
 				break
 			}
+			d.Set(a)
+		case n.anc.kind == assignStmt:
+			// Write to the existing variable, which may be referenced by a pointer or a closure.
 			d.Set(a)
 		default:
 			getFrame(f, l).data[frameIndex] = a
